@@ -222,7 +222,7 @@ func init() {
 		ID:    "C18",
 		Level: "model_checking",
 		Rule: "the pause begins atomically just before every scheduler step of the default schedule of a 4-chunk transfer and ends after {0.1 s, timeout-0.5 s, timeout+0.5 s, 3 x timeout} of virtual time (timeout 2 s); " +
-			"x direction x protocol 3/4 x base64 / binary over the tunnel x link latency 0/300 ms; one or two cycles (the second 200 ms after the first; over the 300 ms link 50..1100 ms after it in 6 steps, also with a 16-chunk file so that the ack window fills, in both directions); thorough: x every single schedule deviation after the pause began",
+			"x direction x protocol 3/4 x base64 / binary over the tunnel x link latency 0 / 300 ms / 1.1 s (slow enough for the sender to shrink its buffer and split queued buffers); one or two cycles (the second 200 ms after the first; over the 300 ms link 50..1100 ms after it in 6 steps, also with a 16-chunk file so that the ack window fills, in both directions); thorough: x every single schedule deviation after the pause began",
 		Assumptions: []string{"pause/resume = the calls the stop/continue prompt makes (pauseTransferringFiles / resumeTransferringFiles); promptui itself is not driven",
 			"'below the timeout' is asserted for pauses shorter than timeout - 0.3 s (the paused side polls every 100 ms)"},
 		TraceNote:   "explored directly on the implementation; the number counts executions replayed from recorded choice lists",
@@ -234,6 +234,9 @@ func init() {
 				{Dir: "up", Tree: "one:R:35000", Timeout: 2, Protocol: 3},
 				{Dir: "down", Tree: "one:R:35000", Timeout: 2, Binary: true, Tunnel: true},
 				{Dir: "up", Tree: "one:R:35000", Timeout: 2, LatencyMs: 300},
+				{Dir: "down", Tree: "small3", Timeout: 2}, // several files: the pause may fall between two of them
+				// a link so slow (round trip 2.2 s) that the sender shrinks its buffer and sends queued buffers in pieces
+				{Dir: "up", Tree: "one:R:60000", Timeout: 6, LatencyMs: 1100},
 			}
 			if tier == "thorough" {
 				cfgs = append(cfgs,
